@@ -9,3 +9,4 @@ import JaxVerif.Properties.C16
 #print axioms JV.C16_facts_matter
 #print axioms JV.C16_source_label
 #print axioms JV.C16_source_label_cell
+#print axioms JV.C16_source_label_history
